@@ -49,13 +49,15 @@ def locked_regions(f, selfname, lock):
     `with self.lock:` and `self.lock.acquire(); try: ... finally: self.lock.release()`."""
     regions = []
     want = f"{selfname}.{lock}"
+    # the lock may be bound to a local first (`lock = self.use_lock`)
+    wants = {want} | {t.id for a in ast.walk(f.node) if isinstance(a, ast.Assign) and norm(a.value) == want for t in a.targets if isinstance(t, ast.Name)}
     for n in ast.walk(f.node):
         if isinstance(n, (ast.With, ast.AsyncWith)):
             for it in n.items:
-                if norm(it.context_expr) == want:
+                if norm(it.context_expr) in wants:
                     regions.append((n, n.body))
         elif isinstance(n, ast.Try) and n.finalbody:
-            rel = any(isinstance(s, ast.Expr) and norm(s.value) == f"{want}.release()" for s in n.finalbody)
+            rel = any(isinstance(s, ast.Expr) and norm(s.value) in {f"{w}.release()" for w in wants} for s in n.finalbody)
             if rel:
                 # the statement before the try must be the acquire
                 par = getattr(n, "_parent", None)
@@ -63,7 +65,7 @@ def locked_regions(f, selfname, lock):
                     blk = getattr(par, fld, None)
                     if isinstance(blk, list) and n in blk:
                         i = blk.index(n)
-                        if i > 0 and isinstance(blk[i - 1], ast.Expr) and norm(blk[i - 1].value) == f"{want}.acquire()":
+                        if i > 0 and isinstance(blk[i - 1], ast.Expr) and norm(blk[i - 1].value) in {f"{w}.acquire()" for w in wants}:
                             regions.append((n, n.body))
     return regions
 
